@@ -322,11 +322,11 @@ func init() {
 		n := int(args[2].(*Term).iv.Int64())
 		for _, sc := range m.w.schemas {
 			if sc.store == store && sc.prefix == prefix {
-				sc.bound = n
+				sc.bound, sc.boundSet = n, true
 				return nil
 			}
 		}
-		m.w.schemas = append(m.w.schemas, &Schema{store: store, prefix: prefix, bound: n})
+		m.w.schemas = append(m.w.schemas, &Schema{store: store, prefix: prefix, bound: n, boundSet: true})
 		return nil
 	})
 	// Time(unix) time.Time
